@@ -58,7 +58,7 @@ Example bound_nonzero_somewhere : block_bound 100000 = 92 + 100008 /\ stream_bou
 Proof. vm_compute. split; [reflexivity|discriminate]. Qed.
 
 (** The container.  [stream_bytes] is the model of what the single-threaded
-    Stream encoder writes for the plain LZMA2 chain (Stream Header, Blocks with
+    Stream encoder writes for the LZMA2 chain, optionally with a Delta filter in front (Stream Header, Blocks with
     header / LZMA2 payload / padding / Check, Index, Stream Footer; every CRC32,
     size field and padding computed from the data); [stream_decode] is the
     decoder specification written from doc/xz-file-format.txt.  The
@@ -82,9 +82,16 @@ Print Assumptions xz_stream_is_valid_and_lossless.
 
 (* non-vacuity: a two-Block Stream with CRC64, computed *)
 Definition ex_block1 : blockspec :=
-  {| b_db := 0; b_chunks := [KL 3 93 [SLit 97; SLit 98; SLit 99; SMatch 2 5; SShortRep]; KU false [1; 2; 3; 4]] |}.
-Definition ex_block2 : blockspec := {| b_db := 8; b_chunks := [KU true [7; 7; 7]] |}.
+  {| b_delta := None; b_db := 0; b_chunks := [KL 3 93 [SLit 97; SLit 98; SLit 99; SMatch 2 5; SShortRep]; KU false [1; 2; 3; 4]] |}.
+Definition ex_block2 : blockspec := {| b_delta := Some 0; b_db := 8; b_chunks := [KU true [7; 7; 7]] |}.   (* Delta, distance 1 *)
 Example xz_example_decodes :
   xz_decode_single 64 true (stream_bytes 4 [ex_block1; ex_block2] ++ [9; 9]) =
-  (Finished, [97; 98; 99; 97; 98; 99; 97; 98; 99; 1; 2; 3; 4; 7; 7; 7], lenN (stream_bytes 4 [ex_block1; ex_block2])).
+  (Finished, [97; 98; 99; 97; 98; 99; 97; 98; 99; 1; 2; 3; 4; 7; 14; 21], lenN (stream_bytes 4 [ex_block1; ex_block2])).
 Proof. vm_compute. reflexivity. Qed.
+
+(** with a Delta filter: if the chunks expand to the delta-encoded data, the Block holds the data *)
+From XZ Require Import Bcj BcjProofs.
+Theorem delta_block_holds_the_original : forall b dm1 d,
+  b_delta b = Some dm1 -> bytes_ok d -> b_raw b = delta_encode (dm1 + 1) d -> b_data b = d.
+Proof. intros b dm1 d H Hd E. unfold b_data. rewrite H, E. apply delta_roundtrip. exact Hd. Qed.
+Print Assumptions delta_block_holds_the_original.
